@@ -207,6 +207,14 @@ CHECKS = [
              "normalised residual is N^(-1/2)(model(s) - d).  nifty.re reduced_residual_stats (smap/lmap/vmap, real and complex): "
              "the same formulas with #used = size (2 size for complex), hence agreement of both diagnostics on the same residual values.",
      "design_ref": "DESIGN.md 4/C36"},
+    {"property_id": "C26", "engine": "A", "category": "other", "technique": TECH_A + "; task counts, list lengths and the save / re-save / load history are z3 integers concretised by solver-decided forking and executed on the simulated MPI world; the persistence and HDF5 parts run on float64 fields and the real file system (concrete differential per explored history)",
+     "note": NOTE_A + " Bounds: <= 3 tasks / 3 samples quick, <= 5 / 4 thorough. Statistics compared as polynomials up to 1e-9 per coefficient (the code multiplies by rounded constants 1./k). Crashes during save belong to C25.",
+     "text": "Bounded symbolic verification: sample_stat mean / variance and average(op) of SampleList and ResidualSampleList on 1..T "
+             "tasks equal the arithmetic mean and the unbiased variance of the operator outputs for ALL field values; every history "
+             "save(T_save) -> optional shorter overwrite-save(T_resave) -> load(T_load) returns exactly the samples (and mean) last "
+             "saved, in order, without stale samples; save_to_hdf5 exports read back with h5py hold the samples, their arithmetic mean "
+             "and unbiased standard deviation.",
+     "design_ref": "DESIGN.md 4/C26"},
 ]
 
 ALL = [f"C{i:02d}" for i in range(1, 37)]
